@@ -22,6 +22,67 @@ let words s = List.filter (fun t -> t <> "") (String.split_on_char ' ' (trim s))
 let semis s = if trim s = "" then [] else List.map trim (String.split_on_char ';' s)
 let gkey (g : z list) = string_of_zlist g
 
+
+(* ---------- stage SURR: exact dyadic rationals `n@e` = n * 2^e ---------- *)
+let near_ties = ref 0
+let surr_checked = ref 0
+let surr_replayed = ref 0
+let surr_fallback = ref 0
+let surr_q_agree = ref 0
+let rec shl_pos (p : positive) (k : int) : positive = if k <= 0 then p else shl_pos (XO p) (k - 1)
+let q_of_string (t : string) : q =
+  let t = trim t in
+  match String.index_opt t '@' with
+  | None -> { qnum = z_of_int (int_of_string t); qden = XH }
+  | Some i ->
+    let n = int_of_string (String.sub t 0 i) and e = int_of_string (String.sub t (i + 1) (String.length t - i - 1)) in
+    if e >= 0 then
+      { qnum = (match z_of_int n with Z0 -> Z0 | Zpos p -> Zpos (shl_pos p e) | Zneg p -> Zneg (shl_pos p e)); qden = XH }
+    else { qnum = z_of_int n; qden = shl_pos XH (- e) }
+let commas s = if trim s = "" then [] else List.map trim (String.split_on_char ',' s)
+(* the same numbers as binary64 (n has at most 53 bits: exact) *)
+let f_of_string (t : string) : Float64.t =
+  let t = trim t in
+  if t = "nf" then Float64.of_float nan else
+  match String.index_opt t '@' with
+  | None -> Float64.of_float (float_of_string t)
+  | Some i ->
+    let n = int_of_string (String.sub t 0 i) and e = int_of_string (String.sub t (i + 1) (String.length t - i - 1)) in
+    Float64.of_float (Float.ldexp (float_of_int n) e)
+let flist_of_string (s : string) : Float64.t list = List.map f_of_string (commas s)
+let fbits (x : Float64.t) = Int64.bits_of_float (Float64.to_float x)
+let qlist_of_string (s : string) : q list = List.map q_of_string (commas s)
+let qeq a b = qeq_bool a b
+let qlist_eq a b = List.length a = List.length b && List.for_all2 qeq a b
+let rec string_of_pos_bits (p : positive) : string = match p with XH -> "1" | XO r -> string_of_pos_bits r ^ "0" | XI r -> string_of_pos_bits r ^ "1"
+let string_of_z_bits (x : z) = match x with Z0 -> "0" | Zpos p -> "0b" ^ string_of_pos_bits p | Zneg p -> "-0b" ^ string_of_pos_bits p
+let string_of_q (x : q) = let r = qred x in string_of_z_bits r.qnum ^ "/" ^ string_of_z_bits (Zpos r.qden)
+let string_of_qlist l = String.concat "," (List.map string_of_q l)
+let q_eps : q = { qnum = z_of_int 1; qden = shl_pos XH 52 }
+let qdist x t = qabs (qminus x t)
+(* the implementation rounds |x - t|: two grid points whose exact distances differ by less than the rounding error of one
+   subtraction may be ordered differently -- such a disagreement is counted (near_ties), not reported *)
+let near_tie (ts : q list) (x : q) (a : int) (b : int) : bool =
+  a >= 0 && b >= 0 && a < List.length ts && b < List.length ts &&
+  (let ta = List.nth ts a and tb = List.nth ts b in
+   let da = qdist x ta and db = qdist x tb in
+   let tol = qmult q_eps (qplus (qabs x) (qplus (qabs ta) (qabs tb))) in
+   not (qeq da db) && qle_bool (qabs (qminus da db)) tol)
+let has_near_tie (ts : q list) (x : q) : bool =
+  match ts with
+  | [] -> false
+  | t0 :: _ ->
+    let ds = List.map (qdist x) ts in
+    let m = List.fold_left (fun a d -> if qle_bool d a then d else a) (qdist x t0) ds in
+    let amax = List.fold_left (fun a t -> if qle_bool (qabs t) a then a else qabs t) (qabs t0) ts in
+    let tol = qmult q_eps (qplus (qabs x) (qplus amax amax)) in
+    List.exists (fun d -> not (qeq d m) && qle_bool (qminus d m) tol) ds
+(* |x| >= 2^60: every subtraction x - t rounds, the exact-rational model is not expected to agree *)
+let huge (t : string) : bool =
+  match String.index_opt t '@' with
+  | Some i -> (try int_of_string (String.sub t (i + 1) (String.length t - i - 1)) > 7 with _ -> true)
+  | None -> false
+
 exception Diverged of string
 
 (* "i,j:key" *)
@@ -38,7 +99,33 @@ let canon_steps (l : (string * string) list) : string =
   String.concat " " (List.map (fun (g, k) -> g ^ ":" ^ k) l')
 
 let opt_line line rest =
-  match split_str " | " rest with
+  let fields = split_str " | " rest in
+  (* stage SURR: surrogate runs carry the grid images and the recorded inner-solver answers *)
+  let surr : (Float64.t list list * (int, (bool * Float64.t list)) Hashtbl.t) option =
+    match fields with
+    | [_; _; _; _; stss; sans] ->
+      let tss = List.map flist_of_string (semis stss) in
+      let tbl = Hashtbl.create 16 in
+      List.iter (fun a -> match String.split_on_char ':' a with
+          | [n; v; xs] -> Hashtbl.replace tbl (int_of_string (trim n)) (v = "1", if v = "1" then flist_of_string xs else [])
+          | _ -> ()) (semis sans);
+      Some (tss, tbl)
+    | _ -> None in
+  (* the exact-rational model must agree with the binary64 twin wherever no rounding can matter *)
+  (match fields with
+   | [_; _; _; _; stss; sans] ->
+     let qtss = List.map qlist_of_string (semis stss) in
+     List.iter (fun a -> match String.split_on_char ':' a with
+         | [_; "1"; xs] ->
+           let qx = (if List.exists huge (commas xs) then [] else qlist_of_string xs) and fx = flist_of_string xs in
+           if List.length qx = List.length qtss && not (List.exists huge (commas xs)) && not (List.exists2 has_near_tie qtss qx) then begin
+             incr surr_q_agree;
+             let pq = sg_proposal qtss qx and pf = sg_proposal_f (List.map flist_of_string (semis stss)) fx in
+             if gkey pq <> gkey pf then report line ("exact-rational proposal " ^ gkey pq ^ " differs from the binary64 proposal " ^ gkey pf ^ " without a near-tie")
+           end
+         | _ -> ()) (semis sans)
+   | _ -> ());
+  match (match fields with [a; b; c; d] -> [a; b; c; d] | [a; b; c; d; _; _] -> [a; b; c; d] | l -> l) with
   | [hd; sbatches; outcome; ssteps] ->
     (match words hd with
      | [_case; kind; smax; ssizes] ->
@@ -62,10 +149,16 @@ let opt_line line rest =
        let obs_steps = List.map parse_point (words ssteps) in
        let outcome = trim outcome in
        (* verdict of one full run of the verified model under the given oracle answers *)
+       let ansf (tbl : (int, (bool * Float64.t list)) Hashtbl.t) steps =
+         match Hashtbl.find_opt tbl (List.length steps) with Some (true, xs) -> Some xs | _ -> None in
+       let use_answers = ref (surr <> None && kind = "S") in
        let verdict (pick : (int, z list) Hashtbl.t) (prop : (int, z list option) Hashtbl.t) : string option =
          let pickf n = Hashtbl.find_opt pick (int_of_nat n) in
          let propf steps = match Hashtbl.find_opt prop (List.length steps) with Some r -> r | None -> None in
-         match (try Ok (optimize_pick pickf propf f cfg) with Diverged g -> Error g) with
+         let run () = match surr with
+           | Some (tss, tbl) when !use_answers -> optimize_pick_sg_f pickf tss (ansf tbl) f cfg   (* the proposal is computed by the model *)
+           | _ -> optimize_pick pickf propf f cfg in
+         match (try Ok (run ()) with Diverged g -> Error g) with
          | Error g -> Some ("the model evaluates " ^ g ^ " which the implementation never evaluated")
          | Ok o ->
            let calls = calls_of o in
@@ -134,6 +227,10 @@ let opt_line line rest =
                end in
              let props : z list option list =
                if not surrogate_refine then [None]
+               else if !use_answers then
+                 (match surr with
+                  | Some (tss, tbl) -> [sg_prop_f tss (ansf tbl) steps]
+                  | None -> [None])
                else if k < nb then List.map (fun c -> Some (zs c)) (neighbours obs_first.(k) isizes)
                else if outcome = "abort" then [None]
                else List.map (fun (g, _) -> Some g) steps in
@@ -164,7 +261,8 @@ let opt_line line rest =
              if not ok then Hashtbl.replace failed key ();
              ok
            end in
-         let found =
+         let search () =
+           Hashtbl.reset pick; Hashtbl.reset prop; Hashtbl.reset failed; deepest := 0;
            match (try Some (init_pick nopick f cfg) with Diverged _ -> None) with
            | None -> false
            | Some (SDone (Thrown calls)) ->
@@ -174,6 +272,8 @@ let opt_line line rest =
              (match ms.ms_st.st_calls with
               | [b] when nb >= 1 && batch_string b = obs_b.(0) -> explore ms 1 false
               | _ -> false) in
+         let found = search () in
+         if !use_answers then incr surr_replayed;
          if found then begin
            match verdict pick prop with
            | None -> incr accepted_search
@@ -207,6 +307,83 @@ let () =
                | _ -> ())
             | _ -> ())
          | "OPT" -> opt_line line rest
+         | "SGV" ->
+           (* SGV id d | model | x = size | value | grad *)
+           (match split_str " = " rest with
+            | [lhs; rhs] ->
+              (match split_str " | " lhs, split_str " | " rhs with
+               | [_hd; sm; sx], [ssize; sval; sgrad] ->
+                 incr total; incr surr_checked;
+                 let m = qlist_of_string sm and x = qlist_of_string sx in
+                 let size = int_of_z (dim_of_size (z_of_int (List.length m))) in
+                 if size <> int_of_string (trim ssize) then report line (Printf.sprintf "size %d" size)
+                 else if size = List.length x then begin
+                   let v = sg_value m x and g = sg_grad m x in
+                   if trim sval = "nf" || not (qeq v (q_of_string sval)) then report line ("value " ^ string_of_q v)
+                   else if not (qlist_eq g (qlist_of_string sgrad)) then report line ("gradient " ^ string_of_qlist g)
+                   (* the walk of the value and the walk of the fit's features agree (C13_sg_value_features, on this input) *)
+                   else if List.length m = int_of_z (fit_size (z_of_int (List.length x))) && not (qeq v (qdot m (quad_terms x))) then
+                     report line "value differs from model . quad_terms(x)"
+                 end
+               | _ -> ())
+            | _ -> ())
+         | "SGF" ->
+           (* SGF id d n | p rows | y | c = size | value | grad | convex *)
+           (match split_str " = " rest with
+            | [lhs; rhs] ->
+              (match split_str " | " lhs, split_str " | " rhs with
+               | [hd; sp; sy; sc], [ssize; sval; sgrad; sconv] ->
+                 incr total; incr surr_checked;
+                 let d = (match words hd with _ :: sd :: _ -> int_of_string sd | _ -> 0) in
+                 let ps = List.map qlist_of_string (semis sp) and y = qlist_of_string sy and c = qlist_of_string sc in
+                 let size = int_of_z (fit_size (z_of_int d)) in
+                 if size <> int_of_string (trim ssize) then report line (Printf.sprintf "size %d" size)
+                 else begin
+                   let rows = fit_rows ps in
+                   let v = fit_value rows y c and g = fit_grad rows y c in
+                   if List.exists (fun r -> List.length r <> size) rows then report line "a row of m_p2 has the wrong length"
+                   else if trim sval = "nf" || not (qeq v (q_of_string sval)) then report line ("value " ^ string_of_q v)
+                   else if not (qlist_eq g (qlist_of_string sgrad)) then report line ("gradient " ^ string_of_qlist g)
+                   else if (trim sconv = "1") <> fit_declared_convex then report line "declared convexity differs"
+                 end
+               | _ -> ())
+            | _ -> ())
+         | "MAP" ->
+           (* MAP id lin|log exact | grid | ts | x | v = point | closest value | from_surrogate(x) | to_surrogate(v) or throw *)
+           (match split_str " = " rest with
+            | [lhs; rhs] ->
+              (match split_str " | " lhs, split_str " | " rhs with
+               | [hd; sgrid; sts; sx; sv], [spoint; scv; sfrom; sto] ->
+                 incr total; incr surr_checked;
+                 let kind, exact = (match words hd with [_; k; e] -> (k, e = "1") | _ -> ("", false)) in
+                 let grid = qlist_of_string sgrid and ts = qlist_of_string sts and x = q_of_string sx and v = q_of_string sv in
+                 let point = int_of_string (trim spoint) in
+                 let fgrid = flist_of_string sgrid and fts = flist_of_string sts and fx = f_of_string sx and fv = f_of_string sv in
+                 let fp = int_of_z (closest_point_f fts fx) in
+                 let fmin = List.hd fgrid and fmax = List.nth fgrid (List.length fgrid - 1) in
+                 let mp = int_of_z (closest_point dbl_max ts x) in
+                 if fp <> point then report line (Printf.sprintf "binary64 closest point %d" fp)
+                 else if kind = "lin" && not (List.for_all2 (fun v t -> match to_surrogate_lin_f fmin fmax v with Some r -> fbits r = fbits t | None -> false) fgrid fts) then
+                   report line "binary64 to_surrogate of the grid values"
+                 else if kind = "lin" && fbits (from_surrogate_lin_f fmin fmax fx) <> fbits (f_of_string sfrom) then report line "binary64 from_surrogate"
+                 else if kind = "lin" && (match to_surrogate_lin_f fmin fmax fv with None -> trim sto <> "throw" | Some r -> trim sto = "throw" || fbits r <> fbits (f_of_string sto)) then
+                   report line "binary64 to_surrogate"
+                 else if mp <> point && near_tie ts x mp point && qle_bool (qdist x (List.nth ts mp)) (qdist x (List.nth ts point)) then incr near_ties
+                 else if mp <> point then report line (Printf.sprintf "closest point %d" mp)
+                 else if not (qeq (closest_value dbl_max grid ts x) (q_of_string scv)) then report line "closest value"
+                 else if kind = "lin" && exact then begin
+                   let vmin = List.hd grid and vmax = List.nth grid (List.length grid - 1) in
+                   let imgs = List.map (to_surrogate_lin vmin vmax) grid in
+                   if not (List.for_all2 (fun a b -> match a with Some a -> qeq a b | None -> false) imgs ts) then
+                     report line "to_surrogate of the grid values"
+                   else if not (qeq (from_surrogate_lin vmin vmax x) (q_of_string sfrom)) then
+                     report line ("from_surrogate " ^ string_of_q (from_surrogate_lin vmin vmax x))
+                   else (match to_surrogate_lin vmin vmax v with
+                       | None -> if trim sto <> "throw" then report line "to_surrogate: the model throws"
+                       | Some r -> if trim sto = "throw" || not (qeq r (q_of_string sto)) then report line ("to_surrogate " ^ string_of_q r))
+                 end
+               | _ -> ())
+            | _ -> ())
          | "TUNE" ->
            (match split_str " | " rest with
             | [hd; sb; stasks; stable; sopt] ->
@@ -239,4 +416,5 @@ let () =
          | _ -> ())
     done
   with End_of_file -> ());
-  Printf.printf "MODEL-DONE checked=%d mismatches=%d accepted_stable=%d accepted_by_search=%d\n" !total !mism !accepted_default !accepted_search
+  Printf.printf "MODEL-DONE checked=%d mismatches=%d accepted_stable=%d accepted_by_search=%d surr_lines=%d surr_runs_replayed=%d surr_near_ties=%d surr_answers_exact_rational_agree=%d\n"
+    !total !mism !accepted_default !accepted_search !surr_checked !surr_replayed !near_ties !surr_q_agree
